@@ -385,6 +385,38 @@ def handleFit (j : Json) : Except String Json := do
   pure (obj [("reads", ofList c11CtxsToJson reads), ("kept", ofList c11CtxsToJson kept), ("pulled", ofNatListJson pulled),
              ("same", Json.bool (match stages with | [s] => (fitReadsFresh sdApprox s c ds).length == ds.length | _ => true))])
 
+/-! ### Phase 6: what runs when a read is abandoned.  `{"abandon": {"obs": [[file, fn, kind], …], "cache": {"sz": n | null, "n": N,
+"reads": [null | k | "all"]}}}` → for every observed source line that ran while a dropped read was closed whether the model's
+`abandonTable` allows it, and the fields of a `pipes.Cache` over `range(N)` after each session (`cacheSessX .nothing`) with what the next read delivers -/
+def cacheStJson (sz : Option Nat) (u : List Nat) (st : CacheSt) : Json :=
+  let (c, it) : Option Nat × Bool := match st with
+    | .unread => (none, false)
+    | .prog c _ => (some c.length, true)
+    | .done c => (some c.length, false)
+  obj [("cache", ofOpt ofNat c), ("iter", Json.bool it), ("next", ofNatListJson (nodeView (.cache sz false st) u))]
+
+def scanl' {α β} (f : β → α → β) : β → List α → List β
+  | _, [] => []
+  | b, a :: as => f b a :: scanl' f (f b a) as
+
+def handleAbandon (q : Json) : Except String Json := do
+  let obs ← (← arr (fieldD q "obs" (Json.arr #[]))).mapM (fun e => do
+    match (← arr e) with
+    | [f, g, k] => pure ((← str f), (← str g), (← str k))
+    | _ => throw "obs must be [file, fn, kind]")
+  let cacheJ ← match q.getObjVal? "cache" with
+    | .ok c => do
+      let sz ← match fieldD c "sz" Json.null with
+        | .null => pure none
+        | j => do pure (some (← nat j))
+      let u := List.range (← nat (← field c "n"))
+      let ds ← (← arr (← field c "reads")).mapM parseDemand
+      pure (ofList (cacheStJson sz u) (scanl' (cacheSessX .nothing sz u) .unread ds))
+    | .error _ => pure Json.null
+  pure (obj [("allowed", ofList (fun (p : String × String × String) => Json.bool (abandonObsAllowed p.1 p.2.1 p.2.2)) obs),
+             ("rows", ofNat abandonTable.length),
+             ("cache", cacheJ)])
+
 /-- {"galias":{"n":N,"stages":["share" | "alloc" | "write" | {"take":k} | {"pick":[i…]}]}}: one read and a second read of N held
 objects (values 100+i) through the general aliasing stages; which delivered objects are held objects (address) and which are new (null) -/
 def handleGAlias (j : Json) : Except String Json := do
@@ -425,6 +457,9 @@ def handle (req : Json) : Except String Json := do
   | .error _ =>
   match req.getObjVal? "stages" with
   | .ok q => handleStages q
+  | .error _ =>
+  match req.getObjVal? "abandon" with
+  | .ok q => handleAbandon q
   | .error _ =>
   let variant := parseVariant (← str (← field req "variant"))
   let finJ ← field req "fin"
